@@ -347,11 +347,86 @@ fn check_text<T: DeserializeOwned + PartialEq>(acc: &mut Acc, typ: &str, name: &
     }
 }
 
+/// Texts in which one member name occurs twice in an object (the first or the last occurrence
+/// carrying another value). A tree cannot hold such a document, so the tree channels are left
+/// out; every text and byte channel - the library's own included - must treat it alike.
+fn duplicate_member_texts(doc: &Value) -> Vec<(String, String)> {
+    let mut out = vec![];
+    let mut points: Vec<String> = vec![String::new()];
+    if let Some(o) = doc.as_object() {
+        for (k, v) in o {
+            let k = k.replace('~', "~0").replace('/', "~1");
+            match v {
+                Value::Object(_) => points.push(format!("/{k}")),
+                Value::Array(a) if a.first().map(|x| x.is_object()).unwrap_or(false) => points.push(format!("/{k}/0")),
+                _ => {}
+            }
+        }
+    }
+    for pt in points {
+        let Some(Value::Object(o)) = doc.pointer(&pt) else { continue };
+        let sub = Value::Object(o.clone()).to_string();
+        for (k, v) in o {
+            let other = match v {
+                Value::String(s) => json!(format!("{s}-second")),
+                Value::Number(n) => json!(n.as_i64().unwrap_or(0) + 1),
+                Value::Array(_) => json!(["second"]),
+                Value::Object(_) => json!({"second": "x"}),
+                Value::Bool(b) => json!(!b),
+                Value::Null => json!("second"),
+            };
+            let member = format!("{}:{}", json!(k), other);
+            let first = if sub.len() > 2 { format!("{{{member},{}", &sub[1..]) } else { continue };
+            let last = format!("{},{member}}}", &sub[..sub.len() - 1]);
+            for (which, subtext) in [("other value first", first), ("other value last", last)] {
+                let mut d = doc.clone();
+                let text = if pt.is_empty() {
+                    subtext
+                } else {
+                    *d.pointer_mut(&pt).unwrap() = json!("@@DUP@@");
+                    d.to_string().replace("\"@@DUP@@\"", &subtext)
+                };
+                out.push((format!("member {k:?} twice at {pt:?} ({which})"), text));
+            }
+        }
+    }
+    out
+}
+
+fn check_duplicates<T: DeserializeOwned + PartialEq>(acc: &mut Acc, typ: &str, doc: &Value, wrapper: bool) {
+    for (name, text) in duplicate_member_texts(doc) {
+        acc.nontrivial += 1;
+        let base: Option<T> = decode::<T>("from_str", &text).ok().flatten();
+        acc.outcome(if base.is_some() { "accepted" } else { "rejected" });
+        for ch in CHANNELS.iter().filter(|c| **c != "from_value" && **c != "Json::deserialize") {
+            acc.evaluations += 1;
+            match decode::<T>(ch, &text) {
+                Err(e) => acc.violation(&format!("panic:{}", e.split(": ").next().unwrap_or("?")), &format!("decoding panicked: {e}"), || json!({"type": typ, "document": name, "channel": ch, "text": text})),
+                Ok(got) => {
+                    if got != base {
+                        acc.violation(&format!("channel-dependent:{typ}:{ch}"), &format!("{typ}: a text with a repeated member is treated differently by {ch} and from_str ({name})"), || json!({"type": typ, "document": name, "channel": ch, "as_text": true, "text": text}));
+                    }
+                }
+            }
+        }
+        if wrapper {
+            wrapper_channels_on_text(acc, &name, "repeated-member", &text, &text);
+        }
+    }
+}
+
 /// Channels the library itself chooses for one type: `MetadataWrapper::try_from_bytes`,
 /// `MetadataWrapper::from_bytes` with the matching type, `MetablockBuilder::from_raw_metadata`.
 fn check_wrapper_channels(acc: &mut Acc, name: &str, doc: &Value) {
-    use in_toto::models::{MetablockBuilder, MetadataType};
     for (sname, text) in spellings(doc, 2) {
+        wrapper_channels_on_text(acc, name, &sname, &text, &doc.to_string());
+    }
+}
+
+fn wrapper_channels_on_text(acc: &mut Acc, name: &str, sname: &str, text: &str, compact: &str) {
+    use in_toto::models::{MetablockBuilder, MetadataType};
+    {
+        let text = text.to_string();
         let base: Option<MetadataWrapper> = decode::<MetadataWrapper>("from_str", &text).ok().flatten();
         let via: Vec<(&str, Guard<Option<MetadataWrapper>>)> = vec![
             ("MetadataWrapper::try_from_bytes", guard(|| MetadataWrapper::try_from_bytes(text.as_bytes()).ok())),
@@ -369,7 +444,7 @@ fn check_wrapper_channels(acc: &mut Acc, name: &str, doc: &Value) {
                 Guard::Panicked(l, m) => acc.violation(&format!("panic:{l}"), &format!("decoding panicked: {m}"), || json!({"type": "MetadataWrapper", "document": name, "channel": ch, "spelling": sname, "text": text})),
                 Guard::Done(g) => {
                     if g != base {
-                        acc.violation(&format!("channel-dependent:MetadataWrapper:{ch}"), &format!("MetadataWrapper: {ch} and from_str disagree on the same text (spelling {sname})"), || json!({"type": "MetadataWrapper", "document": name, "channel": ch, "spelling": sname, "text": text, "compact": doc.to_string()}));
+                        acc.violation(&format!("channel-dependent:MetadataWrapper:{ch}"), &format!("MetadataWrapper: {ch} and from_str disagree on the same text (spelling {sname})"), || json!({"type": "MetadataWrapper", "document": name, "channel": ch, "spelling": sname, "text": text, "compact": compact}));
                     }
                 }
             }
@@ -675,9 +750,25 @@ pub fn run(tier: Tier) -> i32 {
         }
     });
     c.acc.merge(Acc::merge_all(accs));
+    // repeated members (text and byte channels only)
+    {
+        let mut acc = Acc::new();
+        let link = serde_json::to_value(&c16::links(false)[40].1).unwrap();
+        let lay = serde_json::to_value(&la[10].1).unwrap();
+        let lay2 = serde_json::to_value(world::layout(vec![world::step("s", 1, &[keys::get("ed1")])], vec![Inspection::new("i").run(vec!["true".to_string()].into())], &[keys::get("ed1")], world::far_future())).unwrap();
+        let block = world::block_value(&world::sign_link(world::link("s", world::arts(&[("a", 1)]), world::arts(&[("b", 2)])), &signers));
+        check_duplicates::<MetadataWrapper>(&mut acc, "MetadataWrapper", &link, true);
+        check_duplicates::<LinkMetadata>(&mut acc, "LinkMetadata", &link, false);
+        check_duplicates::<MetadataWrapper>(&mut acc, "MetadataWrapper", &lay, true);
+        check_duplicates::<MetadataWrapper>(&mut acc, "MetadataWrapper", &lay2, true);
+        check_duplicates::<LayoutMetadata>(&mut acc, "LayoutMetadata", &lay2, false);
+        check_duplicates::<Metablock>(&mut acc, "Metablock", &block, false);
+        check_duplicates::<PublicKey>(&mut acc, "PublicKey", &serde_json::to_value(keys::get("ed1").public()).unwrap(), false);
+        c.acc.merge(acc);
+    }
     c.acc.note_n("documents", jobs.len() as u64);
     c.acc.note_n("documents_with_unknown_members", jobs_text.len() as u64);
-    c.rule = format!("documents: all C16 text documents (as MetadataWrapper and as Link/LayoutMetadata), every rule form standalone plus malformed rules, steps, inspections, byproducts, signed blocks, all fixture keys and signatures, C19 predicates and statements (through the wrappers and the typed structs), and node-level mutations of four fixtures (mostly rejected); each in spellings compact / pretty / whitespace-heavy / object members in reverse order / all strings \\u-escaped / one string token escaped at a time (up to {max_tokens} tokens per document) x 15 channels (incl. readers that return short reads and readers that are interrupted before every chunk), plus for MetadataWrapper the channels try_from_bytes / from_bytes / MetablockBuilder::from_raw_metadata; byte inputs that are not text (BOM, invalid UTF-8, raw control character, trailing NUL, UTF-16, lone surrogate) through 7 byte channels on every 23rd document; key ids of 8 wrong shapes wherever a key id is read; 13 documents x insertion points (top level, nested objects, first array element) x 19 values of a member the models do not know (fractions, exponents, integers beyond 64 bits, -0, null, containers), as text, x 15 channels; links with 70 KB (thorough: and 1.1 MB) of captured output; baseline = from_str on the compact spelling. distinct_nontrivial = (type, document) pairs");
+    c.rule = format!("documents: all C16 text documents (as MetadataWrapper and as Link/LayoutMetadata), every rule form standalone plus malformed rules, steps, inspections, byproducts, signed blocks, all fixture keys and signatures, C19 predicates and statements (through the wrappers and the typed structs), and node-level mutations of four fixtures (mostly rejected); each in spellings compact / pretty / whitespace-heavy / object members in reverse order / all strings \\u-escaped / one string token escaped at a time (up to {max_tokens} tokens per document) x 15 channels (incl. readers that return short reads and readers that are interrupted before every chunk), plus for MetadataWrapper the channels try_from_bytes / from_bytes / MetablockBuilder::from_raw_metadata; byte inputs that are not text (BOM, invalid UTF-8, raw control character, trailing NUL, UTF-16, lone surrogate) through 7 byte channels on every 23rd document; key ids of 8 wrong shapes wherever a key id is read; texts with one member name twice in an object (top level, nested objects, first array element; the other value first / last) on the 13 text and byte channels and the library's own byte channels; 13 documents x insertion points (top level, nested objects, first array element) x 19 values of a member the models do not know (fractions, exponents, integers beyond 64 bits, -0, null, containers), as text, x 15 channels; links with 70 KB (thorough: and 1.1 MB) of captured output; baseline = from_str on the compact spelling. distinct_nontrivial = (type, document) pairs");
     c.bound_completed = "complete within the listed documents".into();
     c.assume("serde_json's own parsing is identical across channels for serde_json::Value (the from_value and Json::deserialize channels go through it)");
     c.finish()
